@@ -9,7 +9,7 @@ from sa.engine.callgraph import _local_assignments, calls_in, resolve_call
 from sa.engine.consts import UNKNOWN
 from sa.engine.context import Ctx
 from sa.engine.guards import atoms, path_conditions
-from sa.engine.loader import AnalysisError, dotted, norm, short, walk_own
+from sa.engine.loader import AnalysisError, anorm, dotted, norm, short, walk_own
 from sa.engine.nullness import M, N, Nullness, ann_optional
 from sa.engine.nullsinks import deref_sites
 from sa.engine.report import Finding, RuleReport
@@ -490,6 +490,23 @@ def rule_lin(ctx: Ctx) -> RuleReport:
                 rep.ok({"branch": tag, "default_character": v})
             else:
                 rep.fail(Finding("C19-LIN", OMML, pe.qual, f"m:{tag}: default character {v!r}", f"m:{tag} without its character property is rendered with {v!r}; ECMA-376 defines {sorted(SPEC_DEFAULTS[tag])} -- Word omits the property exactly for that default, so every plain integral / parenthesis gets the wrong form", line=x.lineno))
+    # (h') an m:val that is present and empty is a value ("no character": the evaluation bar F(x)| has an empty begChr), not a missing one:
+    # the default applies under `is None` tests only, never through the truthiness of the attribute value (`value or default`)
+    scopes = [(tag, n) for tag, st in branches if tag in ("nary", "d", "acc") for n in st.body]
+    helper_fns = {x.func.id for _t, n in scopes for x in ast.walk(n) if isinstance(x, ast.Call) and isinstance(x.func, ast.Name) and x.func.id in mod.functions and not _is_pe_call(x)}
+    bodies = [(f"m:{t}", n, pe) for t, n in scopes] + [(h, n, mod.functions[h]) for h in sorted(helper_fns) for n in mod.functions[h].node.body]
+    n_or = 0
+    for where, n, owner in bodies:
+        vals = {a.targets[0].id for a in ast.walk(owner.node) if isinstance(a, ast.Assign) and len(a.targets) == 1 and isinstance(a.targets[0], ast.Name)
+                and any(isinstance(c, ast.Call) and isinstance(c.func, ast.Attribute) and c.func.attr == "get" for c in ast.walk(a.value))}
+        for b in [x for x in ast.walk(n) if isinstance(x, ast.BoolOp) and isinstance(x.op, ast.Or) and len(x.values) == 2]:
+            left = b.values[0]
+            from_attr = (isinstance(left, ast.Name) and left.id in vals) or any(isinstance(c, ast.Call) and isinstance(c.func, ast.Attribute) and c.func.attr == "get" for c in ast.walk(left))
+            if from_attr:
+                n_or += 1
+                rep.fail(Finding("C19-LIN", OMML, owner.qual, f"{where}: default through truthiness: {anorm(b, owner.node)}", f"`{short(b, 50)}` replaces an m:val that is present but empty by the default character: a delimiter written with an empty begChr / endChr (the evaluation bar 'F(x)|', a one-sided brace) gets a parenthesis that is not in the source", line=b.lineno))
+    if n_or == 0:
+        rep.ok({"property_defaults": "applied under `is None` tests only"})
     # (i) call sites: m:oMathPara holds one m:oMath per line (CT_OMathPara: oMath+); taking find() of it converts the first line only
     for rel in (X + "ms_modern/docx_extractor.py", X + "ms_modern/pptx_extractor.py"):
         cm = ctx.p.module(rel)
